@@ -263,8 +263,9 @@ def expand_power(spec, rings, nduct=1):
         for k in range(ncell):
             co = np.array(AXIAL[ax[k]]) * amp[k]
             order = spec.get('order')
-            if order is not None:
-                co = np.concatenate([co, np.zeros(10)])[:order + 1]
+            if order is None:
+                order = max(len(AXIAL[a]) for a in ax) - 1
+            co = np.concatenate([co, np.zeros(10)])[:order + 1]
             scale = spec.get('q', 1000.0) * fr[key] * npin / counts[key] \
                 if key != 'pins' else spec.get('q', 1000.0)
             cells.append([list(w[i] * scale * co) for i in range(counts[key])])
